@@ -101,6 +101,9 @@ func main() {
 			sw = 1
 		}
 		switch sw {
+		case 2:
+			cfg.Strategy = "sticky"
+			cfg.Stick = []int{60, 80, 90, 96}[r.Intn(4)]
 		case 1:
 			cfg.Strategy = "pct"
 			cfg.PCTDepth = 1 + r.Intn(3)
